@@ -92,7 +92,7 @@ pub fn gen_op(rng: &mut Rng, n: usize, len: usize, allow_forget: bool) -> Op {
             _ => rng.below(if big { 40 } else { n as u64 + 2 }) as usize,
         }
     };
-    match rng.below(if big { 50 } else { 56 }) {
+    match rng.below(if big { 53 } else { 56 }) {
         0..=5 => Op::PushBack,
         6..=9 => Op::PushFront,
         10 => Op::TryPushBack,
